@@ -73,6 +73,7 @@ struct Options {
   bool moveRealloc = true;
   bool inspect = true;
   char replica = 0;  // 0, 'L' or 'C'
+  int instBase = 0;  // allocator instance numbers start here (unique across replicas)
   uint64_t srcSeed = 0;
   bool skipKnown = true;   // skip operations whose signature is a listed known finding
   std::set<std::string> known;
@@ -109,6 +110,7 @@ class HistSim {
   uint64_t faultsInLastOp() const {
     return lastOpFaults_;
   }
+  Transcript obs;        // configuration-independent observables (C19: equal across builds)
   std::string lastSkip;  // why the last op was skipped ("" = executed)
   Options opt;
 
@@ -188,7 +190,7 @@ class HistSim {
 
   std::vector<DocState> docs_;
   std::vector<std::unique_ptr<SimAllocator>> allocs_;
-  SimAllocator tmpAlloc_{99, nullptr};
+  SimAllocator tmpAlloc_;
   std::deque<Ref> refs_;  // stable addresses: handlers keep Ref* across addRef()
   Arena arena_;
   Transcript* t_;
